@@ -293,11 +293,35 @@ def body_predrawn(case):
     if coupled:
         obj.pre_computation(1, product)
         obj.next_level(1, [c03._PM(obj.fine_process.deterministic_path)], product)
-    np.random.seed(case["seed"])
-    obj.pre_computation(n, product)
-    ps = (obj.fine_process if coupled else obj)._path_simulation
     tag = f"C08/pre-drawn/{kind}"
     detail = f"dates={tg.tolist()} case={ {k: v for k, v in case.items() if k not in ('grid',)} }"
+    ps = (obj.fine_process if coupled else obj)._path_simulation
+    # the table of pre-drawn jump counts holds every Poisson variate that was drawn, once: numpy's Poisson sampler is
+    # scripted for one pre-computation (successive integers from 65530 on: no two draws are equal, and the counts pass
+    # 2^16 - a busy interval of a fine level); nothing is simulated from that table
+    handed = []
+    orig_poisson = np.random.poisson
+
+    def scripted_poisson(lam=1.0, size=None):
+        cnt = 1 if size is None else int(np.prod(size))
+        vals = np.arange(65530 + len(handed), 65530 + len(handed) + cnt, dtype=np.int64)
+        handed.extend(int(v) for v in vals)
+        return vals[0] if size is None else vals.reshape(size)
+
+    np.random.poisson = scripted_poisson
+    try:
+        obj.pre_computation(n, product)
+    finally:
+        np.random.poisson = orig_poisson
+    if handed:
+        table = [[int(v) for v in np.ravel(r)] for r in ps._poisson_rv]
+        if len(table) != n or any(len(r) != nb for r in table) or sorted(v for r in table for v in r) != sorted(handed):
+            out.append(Violation(f"{tag}/jump-count-table-is-not-the-drawn-poisson-variates-once-each",
+                                 f"{len(handed)} variates drawn ({handed[:4]}..{handed[-2:]}), table of {len(table)} rows "
+                                 f"{table[:3]}; {detail}"))
+            return out
+    np.random.seed(case["seed"])
+    obj.pre_computation(n, product)
     rows = [np.asarray(r, dtype=float) for r in ps._brownian_increments]
     counts = [list(r) for r in ps._poisson_rv]
     if len(rows) != n or len(counts) != n:
@@ -390,6 +414,88 @@ def body_large_predraw(case):
 
 def classify_large_predraw(case):
     return [case["disc"], f"paths={case['paths']}"], False
+
+
+# ------------------------------------------------------------------------------------ copula coupling: one uniform per projection
+@st.composite
+def strat_copula_uniforms(draw, tier):
+    from props import c03
+
+    case = draw(c03.strat_copula(tier))
+    case.update({"paths": draw(st.integers(10, 30)), "seed": draw(st.sampled_from([3, 77, 2024])),
+                 "dates": draw(st.sampled_from([{"T": 1.0, "asian": False}, {"T": 2.0, "asian": True}])),
+                 "mode": draw(st.sampled_from(["fixed-dates", "jump-times"]))})
+    return case
+
+
+def body_copula_uniforms(case):
+    from props import c03
+    from props.c01 import build_copula_grid
+    from rpylib.distribution.sampling import SamplingMethod
+    from rpylib.process.coupling.couplinglevycopula import CouplingProcessLevyCopula
+    from rpylib.product.payoff import PayoffDates
+    from vlib.grids import GridRejected
+    from vlib.models import build_copula_model
+
+    model = build_copula_model({"margins": case["margins"], "copula": case["copula"]})
+    if not model.jump_of_finite_variation():
+        return [Violation("REJECTED", "infinite-variation copula (constructor cost)")]
+    try:
+        grid = build_copula_grid(case, model)
+    except GridRejected as e:
+        return [Violation("REJECTED", str(e))]
+    if int(np.prod([len(a) for a in grid.axes])) > 125:
+        return [Violation("REJECTED", "level-0 grid outside the per-case bound")]
+    product = c03._product_with_dates(case["dates"])
+    if case["mode"] == "jump-times":
+        product.payoff.payoff_dates_type = PayoffDates.STOCHASTIC
+    cp = CouplingProcessLevyCopula(levy_copula_model=model, grid=grid, method=SamplingMethod[case["method"]])
+    cp.initialisation(product)
+    cp.pre_computation(1, product)
+    cp.next_level(1, [c03._PM(cp.fine_process.deterministic_path)], product)
+    if float(cp.fine_process.intensity_of_jumps) * case["dates"]["T"] * case["paths"] > 4000:
+        return [Violation("REJECTED", "too many jumps for the per-case budget")]
+    np.random.seed(case["seed"])
+    cp.pre_computation(case["paths"], product)
+    drawn, odd = [], [0]
+    uni = cp._uniform
+    orig_sample = uni.sample
+
+    def spy_sample(*a, **k):
+        v = orig_sample(*a, **k)
+        drawn.append(float(np.ravel(v)[0]))
+        return v
+
+    ps = cp.fine_process._path_simulation
+    orig_chain = ps.simulate_markov_chain
+
+    def spy_chain(*a, **k):
+        mc = orig_chain(*a, **k)
+        for sl in mc.states_increments:
+            for inc in sl:
+                if any(int(c) % 2 for c in np.ravel(inc)):
+                    odd[0] += 1
+        return mc
+
+    uni.sample = spy_sample
+    ps.simulate_markov_chain = spy_chain
+    try:
+        for _ in range(case["paths"]):
+            cp.simulate_one_path_with_coupling()
+    finally:
+        uni.sample = orig_sample
+        ps.simulate_markov_chain = orig_chain
+    out = [Violation("NONTRIVIAL")] if odd[0] >= 10 else []
+    detail = f"case={ {k: v for k, v in case.items() if k != 'grid'} }"
+    if len(drawn) != odd[0] or len(set(drawn)) != len(drawn):
+        out.append(Violation("C08/copula-coupling/not-one-fresh-uniform-per-projected-jump",
+                             f"{odd[0]} fine jumps with an odd coordinate over {case['paths']} paths, {len(drawn)} coupling "
+                             f"uniforms drawn ({len(set(drawn))} distinct); {detail}"))
+    return out
+
+
+def classify_copula_uniforms(case):
+    return [f"d={len(case['margins'])}", case["mode"], case["copula"]["type"]], False
 
 
 # ------------------------------------------------------------------------------------ multilevel engine, scripted
@@ -834,6 +940,11 @@ SUBCHECKS = [
              rule="one pre-computation of more than 2^21 normals (tens of thousands of paths of an average over weekly / "
                   "daily / monthly dates): one row per path, rows pairwise distinct",
              enumerate=enum_large_predraw, shards={"quick": 1, "thorough": 4}, exhaustive=False),
+    SubCheck("copula-coupling-uniforms", body_copula_uniforms, classify_copula_uniforms,
+             rule="copula coupling (d=2,3) at level 1, fixed dates or jump times, 10..30 coupled paths: the number of coupling "
+                  "uniforms drawn equals the number of fine jumps with an odd coordinate (spies on the uniform sampler and on "
+                  "the fine chain) and no value repeats; non-trivial = at least 10 such jumps",
+             strategy=strat_copula_uniforms, budget={"quick": 96, "thorough": 480}, shards={"quick": 16, "thorough": 16}),
     SubCheck("multilevel-engine-scripted", body_mlmc, classify_mlmc,
              rule="multilevel engine on a scripted coupling whose samples consume numpy.random: seeded runs "
                   "identical ledgers, no two samples (across paths, passes, levels) drawn from the same variates, no "
